@@ -71,6 +71,8 @@ def content(rng, kind=None, domain="json"):
         top = (0.99 if c["units"]["pressure_mode"] == "relative" else 99.0) if rel else 10.0
         ps = sorted(rng.uniform(top * 1e-4, top) for _ in range(n))
         ls = [rng.uniform(0, 8) for _ in range(n)]
+        if rng.random() < 0.2:
+            ps[0], ls[0] = 0.0, 0.0            # a measured origin: pressure exactly zero
         mode = rng.choice(["ads-only", "ads-only", "two", "des-only", "user"])
         if mode == "two" and n >= 2:
             k = rng.randint(1, n - 1)
